@@ -2,7 +2,7 @@ import QipVerif.Lemmas.RenderLinks3
 /-!
 # C20 — text drawings of circuits are well-formed pictures of the circuit
 
-Property theorems only.  `Render.render sty c` is the model of
+Property theorems only.  `Render.render v sty c` is the model of
 `QubitCircuit.draw("text", **style)` (lean/QipVerif/Model/Render.lean: the printed rows, or the
 exception); `Render.layoutSt` is the renderer's state when `print_circuit` is called.
 All theorems are for every number of wires, every circuit and every style.
@@ -17,21 +17,21 @@ open QipVerif.Render
 /-! ## three rows per wire, in the stated order -/
 
 /-- A successful drawing has exactly three rows per quantum and classical wire. -/
-theorem three_rows_per_wire (sty : Style) (c : Circ) (rows : List Str) (h : render sty c = .ok rows) :
+theorem three_rows_per_wire (v : Variant) (sty : Style) (c : Circ) (rows : List Str) (h : render v sty c = .ok rows) :
     rows.length = 3 * (c.N + c.C) := by
   obtain ⟨st, hst, rfl⟩ := render_ok h
   have hlen := layoutSt_length hst
   unfold printRows
   rw [flatMap_wireRows_length st _ (fun i hi => by have := mem_printOrder hi; omega), printOrder_length]
 
-example : ∃ rows, render {} { N := 2, C := 1, ops := [.meas [1] 0] } = .ok rows ∧ rows.length = 9 := by
+example : ∃ rows, render {} {} { N := 2, C := 1, ops := [.meas [1] 0] } = .ok rows ∧ rows.length = 9 := by
   refine ⟨_, rfl, ?_⟩; decide +kernel
 
 /-- **Row order.**  The picture lists the wires from the highest qubit down to qubit 0, then the
 classical wires from the highest down (`wireAtRow N C j = N-1-j` for `j < N`, `N + (N+C-1-j)` after):
 rows `3j, 3j+1, 3j+2` of the output are the top / middle / bottom row of that wire. -/
-theorem row_order (sty : Style) (c : Circ) (rows : List Str) (h : render sty c = .ok rows) :
-    ∃ st, layoutSt sty c = .ok st ∧ ∀ j, j < c.N + c.C →
+theorem row_order (v : Variant) (sty : Style) (c : Circ) (rows : List Str) (h : render v sty c = .ok rows) :
+    ∃ st, layoutSt v sty c = .ok st ∧ ∀ j, j < c.N + c.C →
       ∃ w, st[wireAtRow c.N c.C j]? = some w ∧
         rows[3 * j]? = some w.top ∧ rows[3 * j + 1]? = some w.mid ∧ rows[3 * j + 2]? = some w.bot := by
   obtain ⟨st, hst, rfl⟩ := render_ok h
@@ -54,12 +54,12 @@ example : (List.range 5).map (wireAtRow 3 2) = [2, 1, 0, 4, 3] := by decide
 
 /-- **Row order, as read off the picture.**  The middle row at picture position `j` begins with
 the label of wire `wireAtRow N C j` (` label`, blanks up to the longest label, `:`). -/
-theorem row_labels (sty : Style) (c : Circ) (rows : List Str) (h : render sty c = .ok rows)
+theorem row_labels (v : Variant) (sty : Style) (c : Circ) (rows : List Str) (h : render v sty c = .ok rows)
     (j : Nat) (hj : j < c.N + c.C) (l : Str)
     (hl : (wireLabels sty c.N c.C)[wireAtRow c.N c.C j]? = some l) :
     ∃ row, rows[3 * j + 1]? = some row ∧
       labelPrefix (lmax ((wireLabels sty c.N c.C).map List.length)) l <+: row := by
-  obtain ⟨st, hst, hrows⟩ := row_order sty c rows h
+  obtain ⟨st, hst, hrows⟩ := row_order v sty c rows h
   obtain ⟨w, hw, _, hmid, _⟩ := hrows j hj
   have hlt : wireAtRow c.N c.C j < c.N + c.C :=
     mem_printOrder (List.mem_of_getElem? (printOrder_get c.N c.C j hj))
@@ -67,7 +67,7 @@ theorem row_labels (sty : Style) (c : Circ) (rows : List Str) (h : render sty c 
   rw [hw] at hw'; cases hw'
   exact ⟨w.mid, hmid, hpre⟩
 
-example : ∃ rows row, render {} { N := 2, C := 1, ops := [] } = .ok rows ∧ rows[1]? = some row ∧
+example : ∃ rows row, render {} {} { N := 2, C := 1, ops := [] } = .ok rows ∧ rows[1]? = some row ∧
     [' ','q','1',' ',':'] <+: row := by
   refine ⟨_, _, rfl, rfl, ?_⟩; decide +kernel
 
@@ -75,15 +75,15 @@ example : ∃ rows row, render {} { N := 2, C := 1, ops := [] } = .ok rows ∧ r
 
 /-- … after `_add_wire_labels` and after every iteration of the loop of `layout`
 (`ops` is arbitrary, so this covers every prefix of the circuit) … -/
-theorem aligned_after_every_step (sty : Style) (N C : Nat) (ops : List Op) (st0 st : St)
-    (h0 : addWireLabels sty N C (initSt N C) = .ok st0) (h : steps sty N C st0 ops = .ok st) :
+theorem aligned_after_every_step (v : Variant) (sty : Style) (N C : Nat) (ops : List Op) (st0 st : St)
+    (h0 : addWireLabels sty N C (initSt N C) = .ok st0) (h : steps v sty N C st0 ops = .ok st) :
     Aligned st0 ∧ Aligned st := by
   have a0 := addLabelsFrom_aligned (addWireLabels_ok h0) (initSt_aligned _ _)
   exact ⟨a0, steps_induct Aligned (fun _ _ _ hs hst => step_aligned hst hs) h a0⟩
 
 /-- … after every single `+=` inside an iteration (`m` appends of the `_update_*` calls done) … -/
-theorem aligned_after_every_append (align : Bool) (p N C : Nat) (op : Op) (pl : Plan) (st : St) (m : Nat)
-    (hpl : plan p N C op = .ok pl) (h : Aligned st) :
+theorem aligned_after_every_append (v : Variant) (align : Bool) (p N C : Nat) (op : Op) (pl : Plan) (st : St) (m : Nat)
+    (hpl : plan v p N C op = .ok pl) (h : Aligned st) :
     Aligned (applyActs (pl.acts.take m)
       (manageLayers pl.width pl.wl (layerOf st pl.wl) (getXskip align N st pl.wl (layerOf st pl.wl))
         (adjustPad N pl.wl (getXskip align N st pl.wl (layerOf st pl.wl)) st))) :=
@@ -91,17 +91,17 @@ theorem aligned_after_every_append (align : Bool) (p N C : Nat) (op : Op) (pl : 
     (fun a ha => plan_acts_segOk hpl a (List.mem_of_mem_take ha)) h
 
 /-- … and when the picture is printed: the three rows of every wire have one length. -/
-theorem aligned_final (sty : Style) (c : Circ) (rows : List Str) (h : render sty c = .ok rows) :
+theorem aligned_final (v : Variant) (sty : Style) (c : Circ) (rows : List Str) (h : render v sty c = .ok rows) :
     ∀ j, j < c.N + c.C → ∃ t m b, rows[3 * j]? = some t ∧ rows[3 * j + 1]? = some m ∧ rows[3 * j + 2]? = some b ∧
       t.length = m.length ∧ b.length = m.length := by
-  obtain ⟨st, hst, hrows⟩ := row_order sty c rows h
+  obtain ⟨st, hst, hrows⟩ := row_order v sty c rows h
   intro j hj
   obtain ⟨w, hw, h1, h2, h3⟩ := hrows j hj
   have := layoutSt_aligned hst w (List.mem_of_getElem? hw)
   exact ⟨_, _, _, h1, h2, h3, this.1, this.2⟩
 
 example : ∃ st0 st, addWireLabels {} 3 1 (initSt 3 1) = .ok st0 ∧
-    steps {} 3 1 st0 [.gate ['U'] none [0, 2] (some [1]), .meas [1] 0] = .ok st := ⟨_, _, rfl, rfl⟩
+    steps {} {} 3 1 st0 [.gate ['U'] none [0, 2] (some [1]), .meas [1] 0] = .ok st := ⟨_, _, rfl, rfl⟩
 
 /-! ## equal widths -/
 
@@ -109,8 +109,8 @@ example : ∃ st0 st, addWireLabels {} 3 1 (initSt 3 1) = .ok st0 ∧
 default labels), there is at least one qubit, every gate acts on qubits, every measurement has
 one target, and **every box with controls has contiguous targets** (`circOk`, decidable), then
 after the final padding all rows have one width. -/
-theorem equal_width_partial (sty : Style) (c : Circ) (rows : List Str) (hc : circOk sty c = true)
-    (h : render sty c = .ok rows) : EqualWidth rows := by
+theorem equal_width_partial (v : Variant) (sty : Style) (c : Circ) (rows : List Str) (hc : circOk v sty c = true)
+    (h : render v sty c = .ok rows) : EqualWidth rows := by
   simp only [circOk, Bool.and_eq_true, List.all_eq_true] at hc
   obtain ⟨st, hst, rfl⟩ := render_ok h
   obtain ⟨st0, st1, h0, h1, rfl⟩ := layoutSt_ok hst
@@ -124,35 +124,35 @@ theorem equal_width_partial (sty : Style) (c : Circ) (rows : List Str) (hc : cir
   rcases hrw with rfl | rfl | rfl <;> rcases hrw' with rfl | rfl | rfl <;> omega
 
 /-- The drawing of a covered circuit succeeds. -/
-theorem draw_succeeds (sty : Style) (c : Circ) (hc : circOk sty c = true) : ∃ rows, render sty c = .ok rows := by
+theorem draw_succeeds (v : Variant) (sty : Style) (c : Circ) (hc : circOk v sty c = true) : ∃ rows, render v sty c = .ok rows := by
   simp only [circOk, Bool.and_eq_true, List.all_eq_true] at hc
   obtain ⟨st0, h0⟩ := labels_succeed hc.1
   obtain ⟨st1, h1⟩ := steps_succeeds (sty := sty) (C := c.C) st0 hc.2 (styleOk_N hc.1)
   exact ⟨printRows c.N c.C (finalPad sty c.N st1), by simp only [render, layoutSt, h0, h1]⟩
 
-example : circOk exStyle exCirc = true ∧ rowWidths exStyle exCirc = some (List.replicate 18 53) := by
+example : circOk {} exStyle exCirc = true ∧ rowWidths {} exStyle exCirc = some (List.replicate 18 53) := by
   decide +kernel
 
 /-- **Counter-example 1** (confirmed on the code: rows of width 22 and 44).  4 qubits,
 `FREDKIN` with control 2 and targets `[1, 3]`, default style: the rows of qubit 2 are twice as long. -/
 theorem equal_width_counterexample_inside :
-    rowWidths {} { N := 4, C := 0, ops := [.gate ['F','R','E','D','K','I','N'] none [1, 3] (some [2])] }
+    rowWidths {} {} { N := 4, C := 0, ops := [.gate ['F','R','E','D','K','I','N'] none [1, 3] (some [2])] }
       = some [22, 22, 22, 44, 44, 44, 22, 22, 22, 22, 22, 22] := by decide +kernel
 
 /-- **Counter-example 2** (rows of width 22 and 32): control 0 below the targets `[1, 3]`. -/
 theorem equal_width_counterexample_below :
-    rowWidths {} { N := 4, C := 0, ops := [.gate ['F','R','E','D','K','I','N'] none [1, 3] (some [0])] }
+    rowWidths {} {} { N := 4, C := 0, ops := [.gate ['F','R','E','D','K','I','N'] none [1, 3] (some [0])] }
       = some [22, 22, 22, 32, 32, 32, 22, 22, 22, 22, 22, 22] := by decide +kernel
 
-/-- **The clause "all rows of equal width" as stated is false**: for a valid circuit (in-range,
+/-- **The clause "all rows of equal width" as stated is false on the shipped tree** (`Variant` `{}`): for a valid circuit (in-range,
 pairwise distinct qubits) in the default style the drawing succeeds with rows of different widths. -/
 theorem equal_width_refuted :
-    ¬ ∀ (sty : Style) (c : Circ) (rows : List Str), circValid sty c = true → render sty c = .ok rows →
+    ¬ ∀ (sty : Style) (c : Circ) (rows : List Str), circValid sty c = true → render {} sty c = .ok rows →
         EqualWidth rows := by
   intro hall
   have hv : circValid {} { N := 4, C := 0, ops := [.gate ['F','R','E','D','K','I','N'] none [1, 3] (some [0])] } = true := by
     decide +kernel
-  cases hr : render {} { N := 4, C := 0, ops := [.gate ['F','R','E','D','K','I','N'] none [1, 3] (some [0])] } with
+  cases hr : render {} {} { N := 4, C := 0, ops := [.gate ['F','R','E','D','K','I','N'] none [1, 3] (some [0])] } with
   | error e =>
     have := equal_width_counterexample_below
     simp [rowWidths, hr] at this
@@ -170,9 +170,9 @@ theorem equal_width_refuted :
     omega
 
 -- the witness violates only the contiguity clause of `circOk`
-example : opOk 4 (.gate ['F','R','E','D','K','I','N'] none [1, 3] (some [0])) = false ∧
+example : opOk {} 4 (.gate ['F','R','E','D','K','I','N'] none [1, 3] (some [0])) = false ∧
     opValid 4 0 (.gate ['F','R','E','D','K','I','N'] none [1, 3] (some [0])) = true ∧
-    contig [1, 3] = false ∧ opOk 4 (.gate ['F','R','E','D','K','I','N'] none [1, 2] (some [0])) = true := by decide
+    contig [1, 3] = false ∧ opOk {} 4 (.gate ['F','R','E','D','K','I','N'] none [1, 2] (some [0])) = true := by decide
 
 /-! ## labels in order -/
 
@@ -183,24 +183,24 @@ that wire (`opLabels`: a one-qubit gate / measurement on its target; any other b
 lowest target wire, plus a blank label where the box is closed on its highest target wire; a SWAP
 has no box).  For every circuit whose drawing succeeds — the gap class of the width defect
 included — provided labels and wire labels do not themselves contain the glyphs `┤`, `├`. -/
-theorem labels_in_order (sty : Style) (c : Circ) (rows : List Str) (h : render sty c = .ok rows)
+theorem labels_in_order (v : Variant) (sty : Style) (c : Circ) (rows : List Str) (h : render v sty c = .ok rows)
     (hl : ∀ ls, sty.labels = some ls → ∀ l ∈ ls, noGlyph l = true)
     (ht : ∀ op ∈ c.ops, noGlyph (opText op) = true) (q : Nat) (hq : q < c.N) :
     ∃ row, rows[3 * (c.N - 1 - q) + 1]? = some row ∧
-      readLabels sty.pad row = c.ops.flatMap fun op => opLabels op q := by
-  obtain ⟨st, hst, hrows⟩ := row_order sty c rows h
+      readLabels sty.pad row = c.ops.flatMap fun op => opLabels c.N op q := by
+  obtain ⟨st, hst, hrows⟩ := row_order v sty c rows h
   obtain ⟨w, hw, _, hmid, _⟩ := hrows (c.N - 1 - q) (by omega)
   have hwq : wireAtRow c.N c.C (c.N - 1 - q) = q := by
     unfold wireAtRow; rw [if_pos (by omega)]; omega
   rw [hwq] at hw
   exact ⟨w.mid, hmid, layoutSt_reads hst hl ht q w hw⟩
 
-example : ∃ rows, render exStyle exCirc = .ok rows ∧
+example : ∃ rows, render {} exStyle exCirc = .ok rows ∧
     (rows[10]?.map (readLabels exStyle.pad)) = some [] ∧
     (rows[7]?.map (readLabels exStyle.pad)) = some [['T','O','F','F','O','L','I']] ∧
     (rows[4]?.map (readLabels exStyle.pad)) = some [['M'], ['x',' ','y']] ∧
     (rows[1]?.map (readLabels exStyle.pad)) = some [[' ', ' ', ' ']] ∧
-    (List.range 4).map (fun q => exCirc.ops.flatMap fun op => opLabels op q) =
+    (List.range 4).map (fun q => exCirc.ops.flatMap fun op => opLabels exCirc.N op q) =
       [[], [['T','O','F','F','O','L','I']], [['M'], ['x',' ','y']], [[' ', ' ', ' ']]] := by
   refine ⟨_, rfl, ?_⟩; decide +kernel
 
@@ -211,19 +211,21 @@ in the state `st` that `print_circuit` prints (`row_order` says where these rows
 output).  In the picture the bottom row of wire `k` is directly above the top row of wire `k - 1`,
 so the cells named below form one unbroken vertical line in one column. -/
 
-/-- In a covered circuit a control of a boxed gate lies strictly above or strictly below the box. -/
-theorem control_outside (N : Nat) (name : Str) (lab : Option Str) (ts cs : List Nat)
-    (hop : opOk N (.gate name lab ts (some cs)) = true) (hswap : name ≠ swapName) (hnd : (ts ++ cs).Nodup)
+/-- In a covered circuit on the shipped tree a control of a boxed gate lies strictly above or
+strictly below the box. -/
+theorem control_outside (v : Variant) (hv : v.spanFix = false) (N : Nat) (name : Str) (lab : Option Str) (ts cs : List Nat)
+    (hop : opOk v N (.gate name lab ts (some cs)) = true) (hswap : name ≠ swapName) (hnd : (ts ++ cs).Nodup)
     (ctl : Nat) (hctl : ctl ∈ cs) : lmax ts < ctl ∨ ctl < lmin ts := by
-  simp only [opOk, Bool.and_eq_true, Bool.or_eq_true, Bool.not_eq_true', decide_eq_true_eq] at hop
+  simp only [opOk, gateOk, Bool.and_eq_true, Bool.or_eq_true, Bool.not_eq_true', decide_eq_true_eq] at hop
   have hnt : ctl ∉ ts := fun h => (List.nodup_append.mp hnd).2.2 ctl h ctl hctl rfl
   have hcontig : contig ts = true := by
-    rcases hop.2 with ((h | h) | h) | h
+    rcases hop.2 with (((h | h) | h) | h) | h
     · simp at h
     · exact absurd h hswap
     · cases cs with
       | nil => cases hctl
       | cons a l => simp [truthy] at h
+    · rw [hv] at h; cases h
     · exact h
   by_cases h1 : lmax ts < ctl
   · exact Or.inl h1
@@ -236,9 +238,11 @@ is one column `col` such that for every control `ctl`: the control wire carries 
 if `ctl` is above the box, the bottom row of `ctl`, all three rows of every wire between, and
 the mark `┴` on the box's top frame (top row of the highest target wire) are in column `col`,
 each wire between showing `│` (or the node `█` of another control); symmetrically (`┬` on the
-bottom row of the lowest target wire) if `ctl` is below the box. -/
-theorem links_reach_control (sty : Style) (c : Circ) (st : St) (hc : circOk sty c = true)
-    (h : layoutSt sty c = .ok st) (pre post : List Op) (name : Str) (lab : Option Str) (ts cs : List Nat)
+bottom row of the lowest target wire) if `ctl` is below the box; and on a tree with the repair
+`insideNode`, a control strictly between the targets has its node `█` in the same column, on
+its own middle row, to the right of the box's left frame `│` (i.e. in the box). -/
+theorem links_reach_control (v : Variant) (sty : Style) (c : Circ) (st : St) (hc : circOk v sty c = true)
+    (h : layoutSt v sty c = .ok st) (pre post : List Op) (name : Str) (lab : Option Str) (ts cs : List Nat)
     (hops : c.ops = pre ++ .gate name lab ts (some cs) :: post) (hswap : name ≠ swapName)
     (hnd : (ts ++ cs).Nodup) :
     ∃ col, ∀ ctl ∈ cs,
@@ -249,17 +253,19 @@ theorem links_reach_control (sty : Style) (c : Circ) (st : St) (hc : circOk sty 
       (ctl < lmin ts →
         cell st ctl 1 col = some '█' ∧ cell st ctl 0 col = some '│' ∧ cell st (lmin ts) 2 col = some '┬' ∧
         ∀ w, ctl < w → w < lmin ts → cell st w 0 col = some '│' ∧ cell st w 2 col = some '│' ∧
-          (cell st w 1 col = some '│' ∨ cell st w 1 col = some '█')) := by
+          (cell st w 1 col = some '│' ∨ cell st w 1 col = some '█')) ∧
+      (v.insideNode = true → lmin ts < ctl → ctl < lmax ts →
+        cell st ctl 1 col = some '█' ∧ ∃ l, l < col ∧ cell st ctl 1 l = some '│') := by
   obtain ⟨xs, pl, hpl, hcells⟩ := piece_in_picture hc h hops
-  have hop : opOk c.N (.gate name lab ts (some cs)) = true := by
+  have hop : opOk v c.N (.gate name lab ts (some cs)) = true := by
     simp only [circOk, Bool.and_eq_true, List.all_eq_true] at hc
     exact hc.2 _ (by rw [hops]; simp)
   have hne : ts ≠ [] := by
-    simp only [opOk, Bool.and_eq_true] at hop
+    simp only [opOk, gateOk, Bool.and_eq_true] at hop
     intro h'; simp [h'] at hop
   by_cases hcs : cs = []
   · exact ⟨0, fun ctl hctl => by rw [hcs] at hctl; cases hctl⟩
-  rw [plan_multi _ _ _ _ _ _ _ hswap hne hcs] at hpl
+  rw [plan_multi _ _ _ _ _ _ _ _ hswap hne hcs] at hpl
   cases hpl
   simp only [] at hcells
   have hshape : ts.length = 1 ∨ lmin ts < lmax ts := by
@@ -268,32 +274,33 @@ theorem links_reach_control (sty : Style) (c : Circ) (st : St) (hc : circOk sty 
     · exact Or.inl h1
     · exact Or.inr (nodup_lmin_lt_lmax (List.nodup_append.mp hnd).1 (by omega))
   have hmm : lmin ts ≤ lmax ts := lmin_le (lmax_mem hne)
+  have hb := drawMultiq_w v sty.pad (gateText name lab) ts (some cs)
   obtain ⟨⟨gT, hgT, hgTtop⟩, ⟨gB, hgB, hgBbot⟩⟩ :=
-    updTargetMultiq_ends ts (drawMultiq sty.pad (gateText name lab) ts (some cs)) hne hshape
+    updTargetMultiq_ends (v := v) ts cs (drawMultiq v sty.pad (gateText name lab) ts (some cs)) hne hshape
   have htr : truthy (some cs) = true := by cases cs <;> simp_all [truthy]
-  obtain ⟨mT, mB⟩ := drawMultiq_marks sty.pad (gateText name lab) ts (some cs) htr
+  obtain ⟨mT, mB⟩ := drawMultiq_marks v sty.pad (gateText name lab) ts (some cs) htr
   simp only [ctrlList, Option.getD_some] at mT mB
-  refine ⟨xs + (drawMultiq sty.pad (gateText name lab) ts (some cs)).top.length / 2, fun ctl hctl => ⟨?_, ?_⟩⟩
+  refine ⟨xs + (drawMultiq v sty.pad (gateText name lab) ts (some cs)).top.length / 2, fun ctl hctl => ⟨?_, ?_, ?_⟩⟩
   · -- control above the box
     intro habove
     have hcmax : ctl ≤ lmax cs := le_lmax hctl
-    have hgt : lmax cs > lmin ts := by omega
-    have hin : ∀ a, a ∈ updQbridge ts cs (pyRange (lmin ts) (lmax cs + 1))
-        (drawMultiq sty.pad (gateText name lab) ts (some cs)).top.length true →
-        a ∈ updTargetMultiq ts (pyRange (lmin ts) (lmax ts + 1)) (drawMultiq sty.pad (gateText name lab) ts (some cs)) ++
-          (if lmax cs > lmin ts then updQbridge ts cs (pyRange (lmin ts) (lmax cs + 1))
-            (drawMultiq sty.pad (gateText name lab) ts (some cs)).top.length true else []) ++
-          (if lmin cs < lmax ts then updQbridge ts cs (pyRange (lmin cs) (lmax ts + 1))
-            (drawMultiq sty.pad (gateText name lab) ts (some cs)).top.length false else []) := by
+    have hgt : isTop v cs ts = true := isTop_of_above v hne hctl habove
+    have hin : ∀ a, a ∈ updQbridge v ts cs (pyRange (lmin ts) (lmax cs + 1))
+        (drawMultiq v sty.pad (gateText name lab) ts (some cs)).top.length true →
+        a ∈ updTargetMultiq v ts cs (pyRange (lmin ts) (lmax ts + 1)) (drawMultiq v sty.pad (gateText name lab) ts (some cs)) ++
+          (if isTop v cs ts = true then updQbridge v ts cs (pyRange (lmin ts) (lmax cs + 1))
+            (drawMultiq v sty.pad (gateText name lab) ts (some cs)).top.length true else []) ++
+          (if isBot v cs ts = true then updQbridge v ts cs (pyRange (lmin cs) (lmax ts + 1))
+            (drawMultiq v sty.pad (gateText name lab) ts (some cs)).top.length false else []) := by
       intro a ha
       rw [if_pos hgt]
       exact List.mem_append_left _ (List.mem_append_right _ ha)
-    have hnotT : ∀ w, lmax ts < w → w ∉ ts := fun w hw hmem => by have := le_lmax hmem; omega
+    have hnotT : ∀ w, lmax ts < w → ¬ inBox v ts w = true := fun w hw => not_inBox_of_outside v (Or.inl hw)
     have hhead : (pyRange (lmin ts) (lmax cs + 1)).head? = some (lmin ts) := pyRange_head? (by omega)
     have hlast : (pyRange (lmin ts) (lmax cs + 1)).getLast? = some (lmax cs) := by
       rw [pyRange_getLast? (by omega)]; rfl
-    obtain ⟨g, hg, gm, _, gb⟩ := @updQbridge_mem ts cs (pyRange (lmin ts) (lmax cs + 1))
-      (drawMultiq sty.pad (gateText name lab) ts (some cs)).top.length true ctl
+    obtain ⟨g, hg, gm, _, gb⟩ := @updQbridge_mem v ts cs (pyRange (lmin ts) (lmax cs + 1))
+      (drawMultiq v sty.pad (gateText name lab) ts (some cs)).top.length true ctl
       (mem_pyRange.mpr ⟨by omega, by omega⟩) (hnotT ctl habove)
     refine ⟨?_, ?_, ?_, ?_⟩
     · exact hcells _ (hin _ hg) 1 _ _ (by simpa [Seg.row, hctl] using gm)
@@ -302,8 +309,8 @@ theorem links_reach_control (sty : Style) (c : Circ) (st : St) (hc : circOk sty 
         (by simp only [Seg.row]; rw [hgTtop]; exact mT hgt)
       exact this
     · intro w hw1 hw2
-      obtain ⟨g', hg', gm', gt', gb'⟩ := @updQbridge_mem ts cs (pyRange (lmin ts) (lmax cs + 1))
-        (drawMultiq sty.pad (gateText name lab) ts (some cs)).top.length true w
+      obtain ⟨g', hg', gm', gt', gb'⟩ := @updQbridge_mem v ts cs (pyRange (lmin ts) (lmax cs + 1))
+        (drawMultiq v sty.pad (gateText name lab) ts (some cs)).top.length true w
         (mem_pyRange.mpr ⟨by omega, by omega⟩) (hnotT w hw1)
       have hnend : ¬ (w ∈ cs ∧ (some w = (pyRange (lmin ts) (lmax cs + 1)).head? ∨
           some w = (pyRange (lmin ts) (lmax cs + 1)).getLast?) ∧ true = true) := by
@@ -320,23 +327,23 @@ theorem links_reach_control (sty : Style) (c : Circ) (st : St) (hc : circOk sty 
   · -- control below the box
     intro hbelow
     have hcmin : lmin cs ≤ ctl := lmin_le hctl
-    have hlt : lmin cs < lmax ts := by omega
-    have hin : ∀ a, a ∈ updQbridge ts cs (pyRange (lmin cs) (lmax ts + 1))
-        (drawMultiq sty.pad (gateText name lab) ts (some cs)).top.length false →
-        a ∈ updTargetMultiq ts (pyRange (lmin ts) (lmax ts + 1)) (drawMultiq sty.pad (gateText name lab) ts (some cs)) ++
-          (if lmax cs > lmin ts then updQbridge ts cs (pyRange (lmin ts) (lmax cs + 1))
-            (drawMultiq sty.pad (gateText name lab) ts (some cs)).top.length true else []) ++
-          (if lmin cs < lmax ts then updQbridge ts cs (pyRange (lmin cs) (lmax ts + 1))
-            (drawMultiq sty.pad (gateText name lab) ts (some cs)).top.length false else []) := by
+    have hlt : isBot v cs ts = true := isBot_of_below v hne hctl hbelow
+    have hin : ∀ a, a ∈ updQbridge v ts cs (pyRange (lmin cs) (lmax ts + 1))
+        (drawMultiq v sty.pad (gateText name lab) ts (some cs)).top.length false →
+        a ∈ updTargetMultiq v ts cs (pyRange (lmin ts) (lmax ts + 1)) (drawMultiq v sty.pad (gateText name lab) ts (some cs)) ++
+          (if isTop v cs ts = true then updQbridge v ts cs (pyRange (lmin ts) (lmax cs + 1))
+            (drawMultiq v sty.pad (gateText name lab) ts (some cs)).top.length true else []) ++
+          (if isBot v cs ts = true then updQbridge v ts cs (pyRange (lmin cs) (lmax ts + 1))
+            (drawMultiq v sty.pad (gateText name lab) ts (some cs)).top.length false else []) := by
       intro a ha
       rw [if_pos hlt]
       exact List.mem_append_right _ ha
-    have hnotT : ∀ w, w < lmin ts → w ∉ ts := fun w hw hmem => by have := lmin_le hmem; omega
+    have hnotT : ∀ w, w < lmin ts → ¬ inBox v ts w = true := fun w hw => not_inBox_of_outside v (Or.inr hw)
     have hhead : (pyRange (lmin cs) (lmax ts + 1)).head? = some (lmin cs) := pyRange_head? (by omega)
     have hlast : (pyRange (lmin cs) (lmax ts + 1)).getLast? = some (lmax ts) := by
       rw [pyRange_getLast? (by omega)]; rfl
-    obtain ⟨g, hg, gm, gt, _⟩ := @updQbridge_mem ts cs (pyRange (lmin cs) (lmax ts + 1))
-      (drawMultiq sty.pad (gateText name lab) ts (some cs)).top.length false ctl
+    obtain ⟨g, hg, gm, gt, _⟩ := @updQbridge_mem v ts cs (pyRange (lmin cs) (lmax ts + 1))
+      (drawMultiq v sty.pad (gateText name lab) ts (some cs)).top.length false ctl
       (mem_pyRange.mpr ⟨by omega, by omega⟩) (hnotT ctl hbelow)
     refine ⟨?_, ?_, ?_, ?_⟩
     · exact hcells _ (hin _ hg) 1 _ _ (by simpa [Seg.row, hctl] using gm)
@@ -345,8 +352,8 @@ theorem links_reach_control (sty : Style) (c : Circ) (st : St) (hc : circOk sty 
         (by simp only [Seg.row]; rw [hgBbot]; exact mB hlt)
       exact this
     · intro w hw1 hw2
-      obtain ⟨g', hg', gm', gt', gb'⟩ := @updQbridge_mem ts cs (pyRange (lmin cs) (lmax ts + 1))
-        (drawMultiq sty.pad (gateText name lab) ts (some cs)).top.length false w
+      obtain ⟨g', hg', gm', gt', gb'⟩ := @updQbridge_mem v ts cs (pyRange (lmin cs) (lmax ts + 1))
+        (drawMultiq v sty.pad (gateText name lab) ts (some cs)).top.length false w
         (mem_pyRange.mpr ⟨by omega, by omega⟩) (hnotT w hw2)
       have hnend : ¬ (w ∈ cs ∧ (some w = (pyRange (lmin cs) (lmax ts + 1)).head? ∨
           some w = (pyRange (lmin cs) (lmax ts + 1)).getLast?) ∧ false = false) := by
@@ -360,30 +367,53 @@ theorem links_reach_control (sty : Style) (c : Circ) (st : St) (hc : circOk sty 
       · by_cases hwc : w ∈ cs
         · exact Or.inr (hcells _ (hin _ hg') 1 _ _ (by simpa [Seg.row, hwc] using gm'))
         · exact Or.inl (hcells _ (hin _ hg') 1 _ _ (by simpa [Seg.row, hwc] using gm'))
+  · -- control between the targets (repaired tree)
+    intro hv h1 h2
+    have hnt : ctl ∉ ts := fun hm => (List.nodup_append.mp hnd).2.2 ctl hm ctl hctl rfl
+    obtain ⟨g, hg, gmid, _, _⟩ := updTargetMultiq_inside hv ts cs
+      (drawMultiq v sty.pad (gateText name lab) ts (some cs)) hb h1 h2 hnt hctl
+    have hmem := List.mem_append_left
+      (if isBot v cs ts = true then updQbridge v ts cs (pyRange (lmin cs) (lmax ts + 1))
+        (drawMultiq v sty.pad (gateText name lab) ts (some cs)).top.length false else [])
+      (List.mem_append_left
+        (if isTop v cs ts = true then updQbridge v ts cs (pyRange (lmin ts) (lmax cs + 1))
+          (drawMultiq v sty.pad (gateText name lab) ts (some cs)).top.length true else []) hg)
+    have hlen : (drawMultiq v sty.pad (gateText name lab) ts (some cs)).midFrame.length =
+        sty.pad * 2 + (gateText name lab).length + 4 := hb.midFrame
+    have hhalf : (sty.pad * 2 + (gateText name lab).length + 4) / 2 <
+        (drawMultiq v sty.pad (gateText name lab) ts (some cs)).midFrame.length := by omega
+    refine ⟨?_, xs + 1, by rw [hb.top]; omega, ?_⟩
+    · have := hcells _ hmem 1 ((sty.pad * 2 + (gateText name lab).length + 4) / 2) '█'
+        (by simp only [Seg.row]; rw [gmid]; exact setChar_get _ _ _ hhalf)
+      rw [hb.top]; exact this
+    · refine hcells _ hmem 1 1 '│' ?_
+      simp only [Seg.row]
+      rw [gmid, setChar_get_lt _ _ hhalf (by omega), (drawMultiq_mids v sty.pad (gateText name lab) ts (some cs)).2.2]
+      rfl
 
 -- non-vacuity: the TOFFOLI of `exCirc` (target 1, controls 0 and 3) meets every hypothesis
-example : circOk exStyle exCirc = true ∧ (∃ st, layoutSt exStyle exCirc = .ok st) ∧
+example : circOk {} exStyle exCirc = true ∧ (∃ st, layoutSt {} exStyle exCirc = .ok st) ∧
     exCirc.ops = [] ++ .gate ['T','O','F','F','O','L','I'] none [1] (some [0, 3]) :: exCirc.ops.tail ∧
     ['T','O','F','F','O','L','I'] ≠ swapName ∧ ([1] ++ [0, 3]).Nodup := by
   refine ⟨by decide +kernel, ⟨_, rfl⟩, rfl, by decide, by decide⟩
 
 /-- **SWAP links reach.**  The two crosses `╳` of a SWAP sit in one column on the middle rows of
 its two wires (`lmin ts`, `lmax ts`) and are joined by `│` on every row between them. -/
-theorem links_reach_swap (sty : Style) (c : Circ) (st : St) (hc : circOk sty c = true)
-    (h : layoutSt sty c = .ok st) (pre post : List Op) (lab : Option Str) (ts : List Nat) (cs : Option (List Nat))
+theorem links_reach_swap (v : Variant) (sty : Style) (c : Circ) (st : St) (hc : circOk v sty c = true)
+    (h : layoutSt v sty c = .ok st) (pre post : List Op) (lab : Option Str) (ts : List Nat) (cs : Option (List Nat))
     (hops : c.ops = pre ++ .gate swapName lab ts cs :: post) (h1 : ¬ (ts.length = 1 ∧ cs = none)) :
     ∃ col, cell st (lmin ts) 1 col = some '╳' ∧ cell st (lmax ts) 1 col = some '╳' ∧
       cell st (lmax ts) 2 col = some '│' ∧ (lmin ts < lmax ts → cell st (lmin ts) 0 col = some '│') ∧
       ∀ w, lmin ts < w → w < lmax ts →
         cell st w 0 col = some '│' ∧ cell st w 1 col = some '│' ∧ cell st w 2 col = some '│' := by
   obtain ⟨xs, pl, hpl, hcells⟩ := piece_in_picture hc h hops
-  have hop : opOk c.N (.gate swapName lab ts cs) = true := by
+  have hop : opOk v c.N (.gate swapName lab ts cs) = true := by
     simp only [circOk, Bool.and_eq_true, List.all_eq_true] at hc
     exact hc.2 _ (by rw [hops]; simp)
   have hne : ts ≠ [] := by
-    simp only [opOk, Bool.and_eq_true] at hop
+    simp only [opOk, gateOk, Bool.and_eq_true] at hop
     intro h'; simp [h'] at hop
-  rw [plan_swap _ _ _ _ _ _ h1 hne] at hpl
+  rw [plan_swap _ _ _ _ _ _ _ h1 hne] at hpl
   cases hpl
   simp only [] at hcells
   have hmm : lmin ts ≤ lmax ts := lmin_le (lmax_mem hne)
@@ -413,8 +443,8 @@ example : exCirc.ops = [.gate ['T','O','F','F','O','L','I'] none [1] (some [0, 3
 (one column `col`): `╥` on the bottom row of `t0`, `║` on all rows of the qubits below `t0` and of
 the classical wires drawn above bit `s`, `║` on the top row of bit `s` and the connector `╩` on
 the classical wire `s` itself. -/
-theorem links_reach_measure (sty : Style) (c : Circ) (st : St) (hc : circOk sty c = true)
-    (h : layoutSt sty c = .ok st) (pre post : List Op) (t0 s : Nat)
+theorem links_reach_measure (v : Variant) (sty : Style) (c : Circ) (st : St) (hc : circOk v sty c = true)
+    (h : layoutSt v sty c = .ok st) (pre post : List Op) (t0 s : Nat)
     (hops : c.ops = pre ++ .meas [t0] s :: post) :
     ∃ col, cell st t0 1 col = some 'M' ∧ cell st t0 2 col = some '╥' ∧
       (∀ w, w < t0 → cell st w 0 col = some '║' ∧ cell st w 1 col = some '║' ∧ cell st w 2 col = some '║') ∧
@@ -422,7 +452,7 @@ theorem links_reach_measure (sty : Style) (c : Circ) (st : St) (hc : circOk sty 
         cell st w 0 col = some '║' ∧ cell st w 1 col = some '║' ∧ cell st w 2 col = some '║') ∧
       (s < c.C → cell st (c.N + s) 0 col = some '║' ∧ cell st (c.N + s) 1 col = some '╩') := by
   obtain ⟨xs, pl, hpl, hcells⟩ := piece_in_picture hc h hops
-  have hop : opOk c.N (.meas [t0] s) = true := by
+  have hop : opOk v c.N (.meas [t0] s) = true := by
     simp only [circOk, Bool.and_eq_true, List.all_eq_true] at hc
     exact hc.2 _ (by rw [hops]; simp)
   have ht0 : t0 < c.N := by simpa [opOk] using hop
@@ -460,5 +490,81 @@ theorem links_reach_measure (sty : Style) (c : Circ) (st : St) (hc : circOk sty 
     exact ⟨hcells _ hg 0 _ _ (by simpa [Seg.row] using a), hcells _ hg 1 _ _ (by simpa [Seg.row] using b)⟩
 
 example : exCirc.ops = exCirc.ops.take 2 ++ .meas [2] 1 :: exCirc.ops.drop 3 ∧ 1 < exCirc.C := ⟨rfl, by decide⟩
+
+/-! ## the repaired variants of the tree (fixes/C20-1, C20-2, C20-3)
+
+`Variant` `{}` is the tree as shipped.  The theorems above hold for every variant; the theorems
+below say what the repairs add.  Which variant a working tree is, is read from its source by
+py/props/c20.py (`detect_variant`) and the correspondence is run against that variant. -/
+
+/-- **Equal widths, full strength** — on a tree with the repair `spanFix` (fixes/C20-1) every valid
+circuit (`circValid`: existing, pairwise distinct qubits; one-target measurements into existing
+bits; `end_wire_ext ≥ 0`; a label for every wire; no contiguity clause) is drawn with all rows of
+one width.  (Gates on the whole register are admitted iff the tree also has `globalBox`.) -/
+theorem equal_width (v : Variant) (hv : v.spanFix = true) (sty : Style) (c : Circ) (rows : List Str)
+    (hc : circValid sty c = true) (hg : ∀ op ∈ c.ops, op.isGlob = true → v.globalBox = true)
+    (h : render v sty c = .ok rows) : EqualWidth rows :=
+  equal_width_partial v sty c rows (circOk_of_valid hv hg hc) h
+
+/-- … and the drawing of every valid circuit succeeds. -/
+theorem draw_succeeds_valid (v : Variant) (hv : v.spanFix = true) (sty : Style) (c : Circ)
+    (hc : circValid sty c = true) (hg : ∀ op ∈ c.ops, op.isGlob = true → v.globalBox = true) :
+    ∃ rows, render v sty c = .ok rows :=
+  draw_succeeds v sty c (circOk_of_valid hv hg hc)
+
+/-- the two counter-examples of the shipped tree are drawn with equal widths by the repaired one,
+and the control between the targets gets its node (`█` = 9608 at column 13 of the middle row of qubit 2) -/
+theorem equal_width_witnesses_repaired :
+    rowWidths { spanFix := true, insideNode := true } {}
+      { N := 4, C := 0, ops := [.gate ['F','R','E','D','K','I','N'] none [1, 3] (some [2])] } = some (List.replicate 12 22) ∧
+    rowWidths { spanFix := true } {}
+      { N := 4, C := 0, ops := [.gate ['F','R','E','D','K','I','N'] none [1, 3] (some [0])] } = some (List.replicate 12 22) ∧
+    (∃ rows row, render { spanFix := true, insideNode := true } {}
+      { N := 4, C := 0, ops := [.gate ['F','R','E','D','K','I','N'] none [1, 3] (some [2])] } = .ok rows ∧
+      rows[4]? = some row ∧ row[13]? = some '█') := by
+  refine ⟨by decide +kernel, by decide +kernel, _, _, rfl, rfl, by decide +kernel⟩
+
+example : circValid {} { N := 4, C := 0, ops := [.gate ['F','R','E','D','K','I','N'] none [1, 3] (some [2])] } = true ∧
+    circOk { spanFix := true } {} { N := 4, C := 0, ops := [.gate ['F','R','E','D','K','I','N'] none [1, 3] (some [2])] } = true ∧
+    circOk {} {} { N := 4, C := 0, ops := [.gate ['F','R','E','D','K','I','N'] none [1, 3] (some [2])] } = false := by decide +kernel
+
+/-- On a valid gate every control is above the box, below it, or strictly between two targets —
+so with `spanFix` and `insideNode`, `links_reach_control` places the node and the link of **every**
+control of **every** valid circuit. -/
+theorem control_position (ts cs : List Nat) (hnd : (ts ++ cs).Nodup) (hne : ts ≠ []) (ctl : Nat) (hc : ctl ∈ cs) :
+    lmax ts < ctl ∨ ctl < lmin ts ∨ (lmin ts < ctl ∧ ctl < lmax ts) := control_trichotomy hnd hne hc
+
+example : ([1, 3] ++ [2, 4]).Nodup ∧ lmin [1, 3] < 2 ∧ 2 < lmax [1, 3] ∧ lmax [1, 3] < 4 := by decide
+
+/-- **A gate on the whole register (`GLOBALPHASE`) cannot be drawn by the shipped tree**: the
+drawing of every circuit containing one raises (`TypeError: object of type 'NoneType' has no len()`
+in `layout`).  Circuits produced by `resolve_gates` contain such gates. -/
+theorem global_gate_not_drawn (v : Variant) (hv : v.globalBox = false) (sty : Style) (c : Circ)
+    (name : Str) (lab : Option Str) (hmem : Op.glob name lab ∈ c.ops) (rows : List Str) :
+    render v sty c ≠ .ok rows := by
+  intro h
+  obtain ⟨st, hst, _⟩ := render_ok h
+  obtain ⟨st0, st1, _, h1, _⟩ := layoutSt_ok hst
+  obtain ⟨pl, hpl⟩ := steps_plan_ok h1 _ hmem
+  simp [plan, hv] at hpl
+
+/-- … it is the `TypeError` (witness: 2 qubits, one `GLOBALPHASE`) … -/
+theorem global_gate_counterexample :
+    renderErr {} {} { N := 2, C := 0, ops := [.glob ['G','L','O','B','A','L','P','H','A','S','E'] none] } = some .type := by decide +kernel
+
+/-- … and with the repair `globalBox` (fixes/C20-3) it is a box over all the qubits: a covered
+element (`opOk`), so `draw_succeeds`, `equal_width_partial`, `labels_in_order` apply to it. -/
+theorem global_gate_covered (v : Variant) (hv : v.globalBox = true) (N : Nat) (hN : 1 ≤ N) (name : Str)
+    (lab : Option Str) : opOk v N (.glob name lab) = true := by
+  simp only [opOk, gateOk, hv, Bool.true_and, Bool.and_eq_true, Bool.or_eq_true]
+  refine ⟨⟨?_, ?_⟩, Or.inl (Or.inl (Or.inr ?_))⟩
+  · cases N with
+    | zero => omega
+    | succ n => simp [List.range_succ]
+  · simp [ctrlList]
+  · rfl
+
+example : rowWidths { globalBox := true } {} { N := 3, C := 1, ops := [.glob ['G','L','O','B','A','L','P','H','A','S','E'] none, .meas [1] 0] }
+    = some (List.replicate 12 33) := by decide +kernel
 
 end QipVerif.C20
